@@ -303,7 +303,7 @@ class bool_encode_into(Contract):
                 'frame': cx.frame(wire, offset, zint(offset) + tlsize(t) + 1)}
 
     def result(c, cx, self, val, markers, wire, offset):
-        if not cx.it.truth(val):
+        if not cx.run.branch(cx.it.truth(val), 'boolean field present'):
             return 0
         n = tlsize(A(self, 'type_num')) + 1
         cx.run.havoc_range(wire, offset, n, 'boolfield')
@@ -311,9 +311,9 @@ class bool_encode_into(Contract):
         return simp(n)
 
     def post_assumed(c, cx, result, self, val, markers, wire, offset):
-        d = c.post(cx, result, self, val, markers, wire, offset)
-        d.pop('frame', None)
-        return d
+        t = A(self, 'type_num')
+        present = cx.it.truth(val)
+        return {'t': Implies(present, And(tlenc_at(cx.heap, wire, offset, t), wire.at(cx.heap, zint(offset) + tlsize(t)) == 0))}
 
 
 # ----------------------------------------------------------------------------- BytesField
